@@ -149,6 +149,7 @@ func genBatch(r *RNG, withBad bool, maxLines int) *Scenario {
 	sp.Policy = r.PickS([]string{"random", "random", "random", "fifo", "lifo", "starve", "burst"})
 	sp.RecordP = r.PickF([]float64{1, 1.0 / 7, 1.0 / 30, 1.0 / 365})
 	sp.NoPoolYield = r.Bool(0.15) // coarse stratum: no parking at pooled-file Gets
+	sp.OpP = r.PickF([]float64{0, 0, 0, 1.0 / 400, 1.0 / 40}) // fine stratum: runs also park in the middle of a record
 	sc.Sched = sp
 	return sc
 }
